@@ -1,15 +1,20 @@
 """C14 - every cassette image written is a well-formed CoCo tape stream."""
 from hypothesis import strategies as st
 
-from vlib import casref, filegen
+import os
+
+from vlib import casref, driver, filegen
 from vlib.harness import ok, viol
 
 PID = "C14"
 RULE = ("Hypothesis draws lists of 0-6 files (name 0-12 printable non-space ASCII, type 0-3, data type 00/FF, "
         "any 16-bit addresses, data length from the 255-multiple boundary grid, uniform 0-4096 or up to 65535, "
         "content uniform / block-marker alphabet / constant / runs, with drawn edge bytes); plus an enumerated "
-        "sweep of single files of every length 0..1100 (quick) / 0..6000 (thorough). Each list is written with "
-        "CassetteFile.add_files and the buffer is parsed by the independent strict tape grammar. Non-trivial = "
+        "sweep of single files of every length 0..1100 (quick) / 0..6000 (thorough) and lengths whose image is a multiple "
+        "of 4096 +- 1. Each list is written with "
+        "CassetteFile.add_files and the buffer is parsed by the independent strict tape grammar; the same list saved "
+        "through VirtualFile.save_virtual_file must put the same bytes into the host file, and the same file objects "
+        "written to a second tape (the first of them twice) must parse again. Non-trivial = "
         "some file has >= 2 data blocks, or a length congruent 0, 1 or 254 mod 255, or length 0; distinct by the "
         "hash of the whole case.")
 ASSUMPTIONS = [
@@ -25,7 +30,9 @@ _case = st.fixed_dictionaries(dict(files=st.lists(filegen.cas_file(), min_size=0
 
 def enumerated(tier, seed):
     top = 1100 if tier == "quick" else 6000
-    for n in range(top + 1):
+    # image lengths around multiples of 4096 (a single file of n bytes takes 539 + n + 6*ceil(n/255) bytes on tape)
+    extra = [n for n in range(3440, 3500)] + [7472, 7473, 7474, 7475, 15479, 15480, 15481] if tier == "quick" else []
+    for n in list(range(top + 1)) + extra:
         yield dict(files=[dict(name="F%d" % n, ftype=2, dtype=0, load=n & 0xFFFF, exec=(n * 7) & 0xFFFF,
                                data=dict(n=n, k=n, mode=n % 4, head="", tail=""))])
 
@@ -83,6 +90,21 @@ def execute(case):
                 idx, len(p.data), len(d)), fid="C14:data", labels=labels)
         if any(b > 255 for b in p.blocks):
             return viol("file {}: data block longer than 255".format(idx), fid="C14:blocklen", labels=labels)
+    # the image as it reaches a host file (the route the command-line tools take) is the same bytes
+    from cocoasm.virtualfiles.virtual_file import VirtualFile, VirtualFileType
+    from cocoasm.virtualfiles.source_file import SourceFile, SourceFileType
+    with driver.TempDir() as tmp:
+        path = os.path.join(tmp, "out.cas")
+        vf = VirtualFile(SourceFile(path, file_type=SourceFileType.BINARY), VirtualFileType.CASSETTE)
+        vf.open_virtual_file()
+        for f, d in zip(case["files"], datas):
+            vf.add_coco_file(filegen.to_coco(f, d))
+        vf.save_virtual_file()
+        written = open(path, "rb").read() if os.path.exists(path) else None
+    if case["files"] and written != bytes(bytearray(buf)):
+        return viol("the host file written by save_virtual_file has {} bytes, the image has {}{}".format(
+            None if written is None else len(written), len(buf),
+            "" if written is None or len(written) != len(buf) else " (same length, different bytes)"), fid="C14:host-file", labels=labels)
     # a file list may name the same file twice, and the same objects may be written to another tape
     if cocos:
         again = CassetteFile()
